@@ -16,6 +16,13 @@ def _mode(fmt, variant=0):
     return hszinc.MODE_ZINC if fmt == 'zinc' else hszinc.MODE_JSON
 
 
+def mode_kw(fmt, var):
+    """keyword arguments that select the format in one of the equivalent public spellings (for ZINC, the default, also none)"""
+    if fmt == 'zinc' and var % 7 == 5:
+        return {}
+    return {'mode': _mode(fmt, var)}
+
+
 def dump_doc(case, gs, single, fmt, var, stage='dump-raises'):
     """hszinc.dump / dumper.dump_grid in one of the equivalent public spellings, chosen by the integer var: the mode as the
     constant or as a documented alias, several grids as a list, a tuple or a one-shot iterator"""
